@@ -508,7 +508,7 @@ static std::string utf8(const ustr &u) {
 // facts about written bytes
 static void byte_facts(W &w, const std::string &b) {
     // utf-8 validity and max line length in code points
-    bool valid = true; size_t i = 0, maxline = 0, cur = 0, lines = 0; bool ascii = true, cif11 = true;
+    bool valid = true; size_t i = 0, maxline = 0, cur = 0, lines = 0; bool ascii = true, cif11 = true, prevcr = false;
     while (i < b.size()) {
         unsigned char c = b[i]; uint32_t cp; int n;
         if (c < 0x80) { cp = c; n = 0; } else if ((c & 0xE0) == 0xC0) { cp = c & 0x1F; n = 1; } else if ((c & 0xF0) == 0xE0) { cp = c & 0x0F; n = 2; }
@@ -520,7 +520,10 @@ static void byte_facts(W &w, const std::string &b) {
         i += n + 1;
         if (cp >= 0x80) ascii = false;
         if (!(cp == 9 || cp == 10 || cp == 13 || (cp >= 32 && cp < 127))) cif11 = false;
-        if (cp == '\n') { if (cur > maxline) maxline = cur; cur = 0; lines++; } else cur++;
+        // a line ends at LF, at CR and at a CR LF pair (a CR inside a value is written as it is)
+        if (cp == '\n') { if (!prevcr) { if (cur > maxline) maxline = cur; cur = 0; lines++; } prevcr = false; }
+        else if (cp == '\r') { if (cur > maxline) maxline = cur; cur = 0; lines++; prevcr = true; }
+        else { cur++; prevcr = false; }
     }
     if (cur > maxline) maxline = cur;
     w.kv("utf8", valid ? 1 : 0); w.kv("maxline", (long long) maxline); w.kv("lines", (long long) lines); w.kv("ascii", ascii ? 1 : 0); w.kv("cif11chars", cif11 ? 1 : 0);
